@@ -14,7 +14,7 @@ REF_ASSUME = [
 def check_C01(tier):
     t0 = time.time()
     b = compile_bin('refdiff', ['checks/refdiff.cc'], 'fast', ref=True)
-    cases = {'quick': 4000, 'thorough': 400000}[tier]
+    cases = {'quick': 100000, 'thorough': 3000000}[tier]
     cases = int(os.environ.get('VERIF_C01_CASES', cases))
     reps = run_native(b, ['--prop', 'C01', '--seed', str(seed()), '--cases', str(cases), '--known', known_tsv('C01')], NCPU, 'C01')
     agg = Agg('C01')
@@ -33,7 +33,7 @@ def check_C02(tier):
     t0 = time.time()
     b = compile_bin('refdiff', ['checks/refdiff.cc'], 'fast', ref=True)
     if tier == 'quick':
-        args = ['--grid', 'strat', '--evts', '300']
+        args = ['--grid', 'strat', '--evts', '1200']
     else:
         args = ['--grid', 'full', '--evts', os.environ.get('VERIF_C02_EVTS', '3000')]
     reps = run_native(b, ['--prop', 'C02', '--seed', str(seed()), '--known', known_tsv('C02')] + args, NCPU, 'C02')
@@ -285,7 +285,7 @@ def check_C07(tier):
 def check_C10(tier):
     t0 = time.time()
     b = compile_bin('mdlcheck', ['checks/mdlcheck.cc'], 'fast')
-    cases = '6000000' if tier == 'thorough' else '300000'
+    cases = '20000000' if tier == 'thorough' else '1500000'
     agg = Agg('C10')
     agg.add(run_native(b, ['--seed', str(seed()), '--cases', cases, '--known', known_tsv('C10')], NCPU, 'C10'))
     rule = ('case = (event: synthetic 1-12 particles incl. collinear / axis-aligned / back-to-back, or a real decay of a random published nuclide / DBD configuration on a generated tape) x '
